@@ -48,6 +48,7 @@ type FuncContract struct {
 	Loops     map[int]*LoopSpec
 	Calls     map[string][]Clause // "callee#k" -> asserts
 	CallUses  map[string][]Clause // "callee#k" -> use clauses evaluated after the call
+	CallBinds map[string]string   // "callee#k" -> contract variable bound to the call's result
 	Ghost     []GhostSet
 	Inline    bool
 	Wrap64    bool
@@ -103,7 +104,7 @@ var reFamily = regexp.MustCompile(`^family\s+(\w+)\.(\w+)\.(\w+)\s*\(([^)]*)\)\s
 var reDefault = regexp.MustCompile(`^default\s+\(\s*(\w+)\s+\*?(\w+)\s*\)\s*$`)
 var reLabel = regexp.MustCompile(`^([A-Za-z][\w.\-]*)\s*:\s*(.*)$`)
 var reLoop = regexp.MustCompile(`^loop\s+(\d+)\s*:?\s*(invariant|decreases|use|unroll)\s+(.*)$`)
-var reCall = regexp.MustCompile(`^call\s+([\w.]+#\d+)\s*:?\s*(assert|use)\s+(.*)$`)
+var reCall = regexp.MustCompile(`^call\s+([\w.]+#\d+)\s*:?\s*(assert|use|bind)\s+(.*)$`)
 
 func parseParams(s string) []Param {
 	var ps []Param
@@ -354,7 +355,13 @@ func (cs *Contracts) loadFile(repo, file string) error {
 				return fmt.Errorf("%s: bad call clause %q", where, l)
 			}
 			key := m[1]
-			if m[2] == "assert" {
+			if m[2] == "bind" {
+				if cur.CallBinds == nil {
+					cur.CallBinds = map[string]string{}
+				}
+				cur.CallBinds[key] = strings.TrimSpace(m[3])
+				appendTo = nil
+			} else if m[2] == "assert" {
 				cur.Calls[key] = append(cur.Calls[key], mk(m[3]))
 				n := len(cur.Calls[key]) - 1
 				c := cur
